@@ -219,9 +219,33 @@ structure FInv (gh : Ghost) (top : Top) : Prop where
   ids : (top.tbinds.map (·.id)).Nodup
   root : ∀ b ∈ top.tbinds, b.isApp = false → rootAlive top.st = true
 
+/-- The toplevel instance is the same object with the same count (its watch lists may differ while it lives). -/
+def InstRel : Option Inst → Option Inst → Prop
+  | none, none => True
+  | some i, some j => j.freed = i.freed ∧ j.refcount = i.refcount ∧ j.appRefs = i.appRefs ∧ (i.freed = true → j = i)
+  | _, _ => False
+
+theorem InstRel.refl : ∀ (a : Option Inst), InstRel a a
+  | none => trivial
+  | some _ => ⟨rfl, rfl, rfl, fun _ => rfl⟩
+
+theorem InstRel.of_eq {a b : Option Inst} (h : b = a) : InstRel a b := by rw [h]; exact InstRel.refl a
+
+theorem InstRel.trans : ∀ {a b c : Option Inst}, InstRel a b → InstRel b c → InstRel a c
+  | none, none, none, _, _ => trivial
+  | some i, some j, some k, h1, h2 =>
+    ⟨h2.1.trans h1.1, h2.2.1.trans h1.2.1, h2.2.2.1.trans h1.2.2.1, fun hf => by
+      have hj : j = i := h1.2.2.2 hf
+      have : k = j := h2.2.2.2 (by rw [hj]; exact hf)
+      rw [this, hj]⟩
+  | none, some _, _, h1, _ => h1.elim
+  | some _, none, _, h1, _ => h1.elim
+  | none, none, some _, _, h2 => h2.elim
+  | some _, some _, none, _, h2 => h2.elim
+
 /-- What a handler bound on the terminal, a watch or an entry point leaves alone. -/
 structure Rest (a b : Top) : Prop where
-  inst : b.inst = a.inst
+  inst : InstRel a.inst b.inst
   dangling : b.dangling = a.dangling
   xterms : b.xterms = a.xterms
   sw : b.sw = a.sw
@@ -235,15 +259,15 @@ structure Rest (a b : Top) : Prop where
   nTB : b.nTB = a.nTB
   sub : ∀ c ∈ b.tbinds, c ∈ a.tbinds
 
-theorem Rest.refl (a : Top) : Rest a a := ⟨rfl, rfl, rfl, rfl, rfl, rfl, rfl, rfl, rfl, rfl, rfl, rfl, fun _ h => h⟩
+theorem Rest.refl (a : Top) : Rest a a := ⟨InstRel.refl _, rfl, rfl, rfl, rfl, rfl, rfl, rfl, rfl, rfl, rfl, rfl, fun _ h => h⟩
 
 theorem Rest.trans {a b c : Top} (h1 : Rest a b) (h2 : Rest b c) : Rest a c :=
-  ⟨h2.inst.trans h1.inst, h2.dangling.trans h1.dangling, h2.xterms.trans h1.xterms, h2.sw.trans h1.sw,
+  ⟨h1.inst.trans h2.inst, h2.dangling.trans h1.dangling, h2.xterms.trans h1.xterms, h2.sw.trans h1.sw,
    h2.swFirst.trans h1.swFirst, h2.swHandler.trans h1.swHandler, h2.fail.trans h1.fail, h2.mock.trans h1.mock,
    h2.hasFd.trans h1.hasFd, h2.inputDead.trans h1.inputDead, h2.now.trans h1.now, h2.nTB.trans h1.nTB,
    fun c hc => h1.sub c (h2.sub c hc)⟩
 
-macro "rest_rfl" : tactic => `(tactic| exact ⟨rfl, rfl, rfl, rfl, rfl, rfl, rfl, rfl, rfl, rfl, rfl, rfl, fun _ h => h⟩)
+macro "rest_rfl" : tactic => `(tactic| exact ⟨InstRel.refl _, rfl, rfl, rfl, rfl, rfl, rfl, rfl, rfl, rfl, rfl, rfl, fun _ h => h⟩)
 
 theorem Rest.swSame {a b : Top} (h : Rest a b) : SwSame a b := ⟨h.sw, h.swFirst, h.swHandler, h.xterms, h.fail⟩
 
@@ -284,11 +308,11 @@ theorem sync_rest (top : Top) : Rest top top.sync := by
   dsimp only
   split
   · split
-    · exact ⟨rfl, rfl, rfl, rfl, rfl, rfl, rfl, rfl, rfl, rfl, rfl, rfl, by intro c hc; cases hc⟩
+    · exact ⟨InstRel.refl _, rfl, rfl, rfl, rfl, rfl, rfl, rfl, rfl, rfl, rfl, rfl, by intro c hc; cases hc⟩
     · exact Rest.refl top
   · split
-    · exact ⟨rfl, rfl, rfl, rfl, rfl, rfl, rfl, rfl, rfl, rfl, rfl, rfl, by intro c hc; cases hc⟩
-    · exact ⟨rfl, rfl, rfl, rfl, rfl, rfl, rfl, rfl, rfl, rfl, rfl, rfl, fun c hc => (List.mem_filter.1 hc).1⟩
+    · exact ⟨InstRel.refl _, rfl, rfl, rfl, rfl, rfl, rfl, rfl, rfl, rfl, rfl, rfl, by intro c hc; cases hc⟩
+    · exact ⟨InstRel.refl _, rfl, rfl, rfl, rfl, rfl, rfl, rfl, rfl, rfl, rfl, rfl, fun c hc => (List.mem_filter.1 hc).1⟩
 
 theorem sync_tbinds (top : Top) : top.sync.tbinds = [] ∨ (rootAlive top.st = true ∧ top.sync.tbinds = top.tbinds) ∨
     (rootAlive top.st = false ∧ top.sync.tbinds = top.tbinds.filter (·.isApp)) := by
@@ -551,5 +575,316 @@ theorem timedOut_ok {cfg : Cfg} (R : Repaired cfg) {gh : Ghost} {top : Top} (F :
     exact ⟨_, rfl, F1.of_fields rfl rfl, (Rest.trans (by rest_rfl) R1).trans (by rest_rfl)⟩
   · simp only [hc, Bool.false_eq_true, if_false, pure_ok, bind_ok]
     exact ⟨_, rfl, F.of_fields rfl rfl, by rest_rfl⟩
+
+/-! ## between two operations -/
+
+/-- What the toplevel instance holds while it lives: a reference to the terminal and one to the root window. -/
+def instGhost : Ghost := { term := 1, win := fun j => if j = 0 then 1 else 0 }
+
+/-- What the library holds between two operations. -/
+def Top.ghost (top : Top) : Ghost :=
+  match top.inst with
+  | some i => if i.freed then Ghost.none else instGhost
+  | none => Ghost.none
+
+/-- The toplevel instance's own count: the application's references; a destroyed instance has no watch left. -/
+structure InstOk (top : Top) : Prop where
+  live : ∀ i, top.inst = some i → i.freed = false → 1 ≤ i.refcount ∧ i.refcount = (i.appRefs : Int)
+  dead : ∀ i, top.inst = some i → i.freed = true → i.laters = [] ∧ i.timers = [] ∧ i.appRefs = 0
+
+theorem ghost_of_inst {a b : Top} (h : InstRel a.inst b.inst) : b.ghost = a.ghost := by
+  unfold Top.ghost
+  generalize a.inst = x at h
+  generalize b.inst = y at h
+  match x, y, h with
+  | none, none, _ => rfl
+  | some i, some j, h => simp only [h.1]
+
+theorem InstOk.of_rel {a b : Top} (I : InstOk a) (h : InstRel a.inst b.inst) : InstOk b := by
+  cases ha : a.inst with
+  | none =>
+    cases hb : b.inst with
+    | none => exact ⟨fun i hi => (by rw [hb] at hi; cases hi), fun i hi => (by rw [hb] at hi; cases hi)⟩
+    | some j => rw [ha, hb] at h; exact h.elim
+  | some i =>
+    cases hb : b.inst with
+    | none => rw [ha, hb] at h; exact h.elim
+    | some j =>
+      rw [ha, hb] at h
+      refine ⟨?_, ?_⟩
+      · intro k hk hf
+        rw [hb] at hk
+        cases hk
+        have := I.live i ha (by rw [← h.1]; exact hf)
+        rw [h.2.1, h.2.2.1]; exact this
+      · intro k hk hf
+        rw [hb] at hk
+        cases hk
+        have hfi : i.freed = true := by rw [← h.1]; exact hf
+        rw [h.2.2.2 hfi]
+        exact I.dead i ha hfi
+
+/-- The invariant before `Top.swSync` has run. -/
+structure TopPre (top : Top) : Prop where
+  f : FInv top.ghost top
+  sw : SwPre top
+  inst : InstOk top
+  dangling : top.dangling = false
+
+/-- The invariant between two operations of `Model/LifeTop.lean`. -/
+structure TopInv (top : Top) : Prop where
+  f : FInv top.ghost top
+  sw : SwOk top
+  inst : InstOk top
+  dangling : top.dangling = false
+
+theorem TopInv.pre {top : Top} (T : TopInv top) : TopPre top := ⟨T.f, T.sw.pre, T.inst, T.dangling⟩
+
+/-- From the state before an operation to the state after it, when the operation left everything but the lower
+    layers' state and the binding list alone. -/
+theorem TopInv.pre_of_rest {a b : Top} (T : TopInv a) (Rs : Rest a b) (F : FInv a.ghost b) : TopPre b :=
+  ⟨by rw [ghost_of_inst Rs.inst]; exact F, T.sw.pre.of_same Rs.swSame, T.inst.of_rel Rs.inst, by rw [Rs.dangling]; exact T.dangling⟩
+
+/-- `xstep`: the operation proper, then the main terminal leaves the observer list if the operation has released it. -/
+theorem xstep_ok {tc : TCfg} (hc : tc.sigwinchClearsNext = true) {top top1 : Top} {op : XOp} {r : String}
+    (h : xstepCore tc top op = .ok (top1, r)) (P : TopPre top1) :
+    xstep tc top op = .ok (top1.swSync tc, r) ∧ TopInv (top1.swSync tc) := by
+  obtain ⟨hx, ok, ns, _⟩ := xstep_of_core hc h P.sw
+  refine ⟨hx, ⟨?_, ok, P.inst.of_rel (InstRel.of_eq ns.inst), by rw [ns.dangling]; exact P.dangling⟩⟩
+  rw [ghost_of_inst (InstRel.of_eq ns.inst)]
+  exact P.f.of_fields ns.st ns.tbinds
+
+/-! ### the operations of the lower layers -/
+
+/-- The operations `xstepCore` hands to `Life.step` without further ado. -/
+def Op.generic : Op → Bool
+  | .newTerm .. | .mdisp .. | .key | .mouse _ | .«end» => false
+  | _ => true
+
+def crashOf (top : Top) : Op → Bool
+  | .act (.restack c w) => top.dangling && usableW top.st w && isRestack c && top.st.tree.root.changes.isEmpty
+  | _ => false
+
+/-- The `| _ =>` branch of `xstepCore (.base op)`. -/
+def baseGeneric (tc : TCfg) (top : Top) (op : Op) : Out (Top × String) :=
+  if crashOf top op then .ub .mem "root window uses the toplevel instance it has outlived" else do
+  let (st, r) ← step tc.base top.st op
+  let screen := if top.printed && !op.leavesScreen && r ≠ "skip" then none else top.screen
+  pure (({ top with st := st, screen := screen }).sync, r)
+
+theorem xstepCore_generic (tc : TCfg) (top : Top) (op : Op) (h : op.generic = true) :
+    xstepCore tc top (.base op) = baseGeneric tc top op := by
+  cases op <;> first | rfl | (cases h)
+
+/-- The operations of the lower layers this layer's theorem covers: those of `no_ub` (no event delivered: windows,
+    pens with their change handlers, strings, buffers, terminal references), `bind` with handlers that free nothing. -/
+def Op.topOk (op : Op) : Prop :=
+  (op.plain = true ∨ op.penEvent = true) ∧ op.generic = true ∧
+    (∀ w ev ret acts, op = .bind w ev ret acts → ∀ a ∈ acts, a.keeps = true)
+
+theorem base_generic_ok {tc : TCfg} (R : Repaired tc.base) {top : Top} (T : TopInv top) (op : Op) (h : op.topOk) :
+    ∃ top1 r, xstepCore tc top (.base op) = .ok (top1, r) ∧ TopPre top1 := by
+  obtain ⟨hkind, hgen, hbind⟩ := h
+  rw [xstepCore_generic tc top op hgen]
+  have hcr : crashOf top op = false := by
+    cases op <;> try rfl
+    case act a => cases a <;> first | rfl | simp [crashOf, T.dangling]
+  unfold baseGeneric
+  simp only [hcr, Bool.false_eq_true, if_false]
+  have hstep : ∃ st1 r, step tc.base top.st op = .ok (st1, r) ∧ SInv top.ghost st1 ∧ KeepingHandlers st1 := by
+    rcases hkind with hp | hpe
+    · obtain ⟨st1, r, hs, inv1⟩ := step_plain_ok R T.f.inv op hp (fun l c m e => by rw [e] at hgen; cases hgen)
+      exact ⟨st1, r, hs, inv1, step_plain_keeps hp T.f.keep hbind hs⟩
+    · obtain ⟨st1, r, hs, inv1, hwx⟩ := step_pen_ok R T.f.inv op hpe
+      exact ⟨st1, r, hs, inv1, T.f.keep.of_wx hwx⟩
+  obtain ⟨st1, r, hs, inv1, H1⟩ := hstep
+  simp only [hs, bind_ok, pure_ok]
+  obtain ⟨F', Rs, _⟩ := sync_ok (top := { top with st := st1, screen := if (top.printed && !op.leavesScreen && decide (r ≠ "skip")) = true then none else top.screen })
+    inv1 H1 T.f.ids
+  exact ⟨_, _, rfl, T.pre_of_rest (Rest.trans (by rest_rfl) Rs) F'⟩
+
+/-! ### events and input -/
+
+theorem okT_ok {r : Out Top} {t : Top} (h : r = .ok t) : okT r = .ok (t, "ok") := by rw [h]; rfl
+
+theorem heldT_live {st : St} (h : heldT st = true) : st.term.freed = false := (heldT_spec h).1
+
+/-- `get_keys` under the reference of the entry point, which is given back afterwards. -/
+theorem getKeysRef_ok {cfg : Cfg} (R : Repaired cfg) {gh : Ghost} {top : Top} (F : FInv gh top) (hf : top.st.term.freed = false)
+    (toks : List Tok) {r : Out Top} (h : getKeys cfg (termRefI top) toks = some r) :
+    ∃ top', (do let t ← r; termUnrefI t) = .ok top' ∧ FInv gh top' ∧ Rest top top' := by
+  obtain ⟨F1, R1⟩ := termRefI_ok F hf
+  obtain ⟨t2, h2, F2, R2⟩ := getKeys_ok R F1 toks h
+  obtain ⟨t3, h3, F3, R3⟩ := termUnrefI_ok F2
+  refine ⟨t3, ?_, F3, (R1.trans R2).trans R3⟩
+  rw [h2]
+  exact h3
+
+/-- `tickit_term_emit_key` / `tickit_term_emit_mouse` with handlers of the application bound on the terminal. -/
+theorem emit_ok {tc : TCfg} (R : Repaired tc.base) {top : Top} (T : TopInv top) (ev : Ev) (m : Mouse) (hh : heldT top.st = true) :
+    ∃ top1, withTermRef top (fun top => runTermEvent tc.base top ev m) = .ok top1 ∧ TopPre top1 := by
+  obtain ⟨top1, h1, F1, R1⟩ := withTermRef_ok T.f (heldT_live hh) (f := fun top => runTermEvent tc.base top ev m)
+    (fun t Ft => runTermEvent_ok R Ft ev m)
+  exact ⟨top1, h1, T.pre_of_rest R1 F1⟩
+
+theorem base_key_ok {tc : TCfg} (R : Repaired tc.base) {top : Top} (T : TopInv top) :
+    ∃ top1 r, xstepCore tc top (.base .key) = .ok (top1, r) ∧ TopPre top1 := by
+  have e : xstepCore tc top (.base .key) =
+      (if top.tbinds.any (·.isApp) then
+        if !heldT top.st then pure (top, "skip")
+        else okT (withTermRef top (fun top => runTermEvent tc.base top .key default))
+      else do
+        let (st, r) ← step tc.base top.st .key
+        pure (({ top with st := st }).sync, r)) := rfl
+  rw [e]
+  by_cases ha : top.tbinds.any (·.isApp) = true
+  · rw [if_pos ha]
+    by_cases hh : heldT top.st = true
+    · rw [if_neg (by rw [hh]; simp)]
+      obtain ⟨top1, h1, P1⟩ := emit_ok R T .key default hh
+      exact ⟨top1, "ok", okT_ok h1, P1⟩
+    · rw [if_pos (not_true_of hh)]
+      exact ⟨top, "skip", rfl, T.pre⟩
+  · rw [if_neg ha]
+    obtain ⟨st1, r, hs, inv1, H1⟩ := step_key_ok R T.f.inv T.f.keep
+    simp only [hs, bind_ok, pure_ok]
+    obtain ⟨F', Rs, _⟩ := sync_ok (top := { top with st := st1 }) inv1 H1 T.f.ids
+    exact ⟨_, _, rfl, T.pre_of_rest (Rest.trans (by rest_rfl) Rs) F'⟩
+
+theorem base_mouse_ok {tc : TCfg} (R : Repaired tc.base) {top : Top} (T : TopInv top) (m : Mouse) :
+    ∃ top1 r, xstepCore tc top (.base (.mouse m)) = .ok (top1, r) ∧ TopPre top1 := by
+  have e : xstepCore tc top (.base (.mouse m)) =
+      (if top.tbinds.any (·.isApp) then
+        if !heldT top.st then pure (top, "skip")
+        else okT (withTermRef top (fun top => runTermEvent tc.base top .mouse m))
+      else do
+        let (st, r) ← step tc.base top.st (.mouse m)
+        pure (({ top with st := st }).sync, r)) := rfl
+  rw [e]
+  by_cases ha : top.tbinds.any (·.isApp) = true
+  · rw [if_pos ha]
+    by_cases hh : heldT top.st = true
+    · rw [if_neg (by rw [hh]; simp)]
+      obtain ⟨top1, h1, P1⟩ := emit_ok R T .mouse m hh
+      exact ⟨top1, "ok", okT_ok h1, P1⟩
+    · rw [if_pos (not_true_of hh)]
+      exact ⟨top, "skip", rfl, T.pre⟩
+  · rw [if_neg ha]
+    obtain ⟨st1, r, hs, inv1, H1⟩ := step_mouse_ok R T.f.inv T.f.keep m
+    simp only [hs, bind_ok, pure_ok]
+    obtain ⟨F', Rs, _⟩ := sync_ok (top := { top with st := st1 }) inv1 H1 T.f.ids
+    exact ⟨_, _, rfl, T.pre_of_rest (Rest.trans (by rest_rfl) Rs) F'⟩
+
+/-- Bytes reach libtermkey (`tickit_term_input_push_bytes`, `_readable`, `_wait_*` with something to read). -/
+theorem input_ok {tc : TCfg} (R : Repaired tc.base) {top : Top} (T : TopInv top) (toks : List Tok) (hh : heldT top.st = true) :
+    ∃ top1 r, (match getKeys tc.base (termRefI top) toks with
+      | none => (pure (top, "unsupported-input") : Out (Top × String))
+      | some r => okT (do let top ← r; termUnrefI top)) = .ok (top1, r) ∧ TopPre top1 := by
+  cases hg : getKeys tc.base (termRefI top) toks with
+  | none => exact ⟨top, _, rfl, T.pre⟩
+  | some r =>
+    obtain ⟨top1, h1, F1, R1⟩ := getKeysRef_ok R T.f (heldT_live hh) toks hg
+    exact ⟨top1, "ok", okT_ok h1, T.pre_of_rest R1 F1⟩
+
+theorem tpush_ok {tc : TCfg} (R : Repaired tc.base) {top : Top} (T : TopInv top) (toks : List Tok) :
+    ∃ top1 r, xstepCore tc top (.tpush toks) = .ok (top1, r) ∧ TopPre top1 := by
+  have e : xstepCore tc top (.tpush toks) =
+      (if !heldT top.st then pure (top, "skip")
+       else match getKeys tc.base (termRefI top) toks with
+        | none => pure (top, "unsupported-input")
+        | some r => okT (do let top ← r; termUnrefI top)) := rfl
+  rw [e]
+  by_cases hh : heldT top.st = true
+  · rw [if_neg (by rw [hh]; simp)]
+    exact input_ok R T toks hh
+  · rw [if_pos (not_true_of hh)]
+    exact ⟨top, "skip", rfl, T.pre⟩
+
+theorem tread_ok {tc : TCfg} (R : Repaired tc.base) {top : Top} (T : TopInv top) (toks : List Tok) :
+    ∃ top1 r, xstepCore tc top (.tread toks) = .ok (top1, r) ∧ TopPre top1 := by
+  have e : xstepCore tc top (.tread toks) =
+      (if !heldT top.st || !top.hasFd then pure (top, "skip")
+       else match getKeys tc.base (termRefI top) toks with
+        | none => pure (top, "unsupported-input")
+        | some r => okT (do let top ← r; termUnrefI top)) := rfl
+  rw [e]
+  by_cases hc : (!heldT top.st || !top.hasFd) = true
+  · rw [if_pos hc]
+    exact ⟨top, "skip", rfl, T.pre⟩
+  · rw [if_neg hc]
+    have hh : heldT top.st = true := by
+      cases h : heldT top.st
+      · rw [h] at hc; simp at hc
+      · rfl
+    exact input_ok R T toks hh
+
+theorem twait_ok {tc : TCfg} (R : Repaired tc.base) {top : Top} (T : TopInv top) (toks : List Tok) (tv : Bool) :
+    ∃ top1 r, xstepCore tc top (.twait toks tv) = .ok (top1, r) ∧ TopPre top1 := by
+  have e : xstepCore tc top (.twait toks tv) =
+      (if !heldT top.st || !top.hasFd then pure (top, "skip")
+       else if toks.isEmpty then
+        okT (withTermRef top (fun top => do
+          let top ← timedOut tc.base top
+          match getKeys tc.base top [] with
+          | none => pure top
+          | some r => r))
+       else match getKeys tc.base (termRefI top) toks with
+        | none => pure (top, "unsupported-input")
+        | some r => okT (do let top ← r; termUnrefI top)) := rfl
+  rw [e]
+  by_cases hc : (!heldT top.st || !top.hasFd) = true
+  · rw [if_pos hc]
+    exact ⟨top, "skip", rfl, T.pre⟩
+  · rw [if_neg hc]
+    have hh : heldT top.st = true := by
+      cases h : heldT top.st
+      · rw [h] at hc; simp at hc
+      · rfl
+    by_cases he : toks.isEmpty = true
+    · rw [if_pos he]
+      obtain ⟨top1, h1, F1, R1⟩ := withTermRef_ok T.f (heldT_live hh)
+        (f := fun top => do
+          let top ← timedOut tc.base top
+          match getKeys tc.base top [] with
+          | none => pure top
+          | some r => r)
+        (fun t Ft => by
+          obtain ⟨t1, h1, F1, R1⟩ := timedOut_ok R Ft
+          simp only [h1, bind_ok]
+          cases hg : getKeys tc.base t1 [] with
+          | none => exact ⟨t1, rfl, F1, R1⟩
+          | some r =>
+            obtain ⟨t2, h2, F2, R2⟩ := getKeys_ok R F1 [] hg
+            exact ⟨t2, h2, F2, R1.trans R2⟩)
+      exact ⟨top1, "ok", okT_ok h1, T.pre_of_rest R1 F1⟩
+    · rw [if_neg he]
+      exact input_ok R T toks hh
+
+theorem tcheck_ok {tc : TCfg} (R : Repaired tc.base) {top : Top} (T : TopInv top) :
+    ∃ top1 r, xstepCore tc top .tcheck = .ok (top1, r) ∧ TopPre top1 := by
+  have e : xstepCore tc top .tcheck =
+      (if !heldT top.st then pure (top, "skip")
+       else do
+        let msec := getTimeout top
+        if msec = 0 then do
+          let top ← withTermRef top (timedOut tc.base)
+          pure (top, "ret=-1")
+        else pure (top, s!"ret={msec}")) := rfl
+  rw [e]
+  by_cases hh : heldT top.st = true
+  · rw [if_neg (by rw [hh]; simp)]
+    by_cases h0 : getTimeout top = 0
+    · simp only [h0, if_true]
+      obtain ⟨top1, h1, F1, R1⟩ := withTermRef_ok T.f (heldT_live hh) (f := timedOut tc.base) (fun t Ft => timedOut_ok R Ft)
+      simp only [h1, bind_ok, pure_ok]
+      exact ⟨top1, _, rfl, T.pre_of_rest R1 F1⟩
+    · simp only [h0, if_false, pure_ok]
+      exact ⟨top, _, rfl, T.pre⟩
+  · rw [if_pos (not_true_of hh)]
+    exact ⟨top, "skip", rfl, T.pre⟩
+
+/-- Operations that change only what the invariant does not look at. -/
+theorem TopInv.pre_fields {a b : Top} (T : TopInv a) (Rs : Rest a b) (hst : b.st = a.st) (htb : b.tbinds = a.tbinds) : TopPre b :=
+  T.pre_of_rest Rs (T.f.of_fields hst htb)
 
 end Tickit.Life
